@@ -96,3 +96,17 @@ pub fn set_max_blobs_per_cluster(max: usize) {
 pub(crate) fn max_blobs_per_cluster() -> usize {
     MAX_BLOBS_PER_CLUSTER.load(std::sync::atomic::Ordering::SeqCst)
 }
+
+static DECODE_CHUNK_SIZE: std::sync::atomic::AtomicUsize =
+    std::sync::atomic::AtomicUsize::new(4 * 1024);
+
+/// Size of the chunks after which the background decoder publishes its progress
+/// (only consulted by the loom build).
+pub fn set_decode_chunk_size(size: usize) {
+    DECODE_CHUNK_SIZE.store(size, std::sync::atomic::Ordering::SeqCst);
+}
+
+#[allow(dead_code)]
+pub(crate) fn decode_chunk_size() -> usize {
+    DECODE_CHUNK_SIZE.load(std::sync::atomic::Ordering::SeqCst)
+}
